@@ -88,6 +88,9 @@ def min_version(recipe) -> int:
     v = 2
     for n in N.recipe_nodes(recipe):
         v = max(v, node_minv(n))
+    allvars = list(recipe.get("vars", {}).values()) + [d for r in recipe.get("routines", []) for d in r.get("locals", {}).values()]
+    if any(d.get("kind") == "abi" for d in allvars):
+        v = max(v, 5)  # abi.String set/get lower to extract-family ops
     if recipe.get("routines"):
         v = max(v, 4)
         if any(p[2] == "ref" for r in recipe["routines"] for p in r["params"]):
@@ -110,8 +113,20 @@ def sig_only(recipe) -> bool:
     return any(n[0] == "arg" for n in N.recipe_nodes(recipe))
 
 
+def slot_demand(recipe) -> int:
+    """lower bound on distinct scratch slots: one per declared variable (temporaries not counted)"""
+    n = len(recipe.get("vars", {}))
+    for r in recipe.get("routines", []):
+        n += len(r.get("locals", {}))
+    return n
+
+
 def legal(recipe, cfg) -> bool:
     v = cfg["version"]
+    if slot_demand(recipe) > 200 and not recipe.get("degenerate"):
+        return False  # not claimed (temporaries could push it over 256)
+    if slot_demand(recipe) > 256:
+        return False
     if v < min_version(recipe):
         return False
     if recipe["mode"] == "sig" and app_only(recipe):
